@@ -29,7 +29,7 @@ CHECK_DEADLOCK FALSE
 
 def model():
     st = tr = 0
-    for L, mp in (("L1", 3), ("L2", 7), ("L3", 9), ("L4", 4)):
+    for L, mp in (("L1", 3), ("L2", 7), ("L3", 9), ("L4", 4), ("L5", 5)):
         r = tlc.model_check("MC_RateLimit", MC_CFG % ("{}", L, mp), "C09_mc", workers=4, timeout=900, required_actions=["SCall", "SAdmit", "STick"])
         if r["violated"] or r["vacuous_actions"]:
             raise ToolError("RateLimit model: %s %s (%s)" % (r["violated"], r["vacuous_actions"], r["out_path"]))
@@ -38,14 +38,19 @@ def model():
     rd = tlc.model_check("MC_RateLimit", MC_CFG % ('{"PruneWithShortest"}', "L3", 9), "C09_dev", workers=4, timeout=600)
     if "C09_WindowInv" not in rd["violated"]:
         raise ToolError("RateLimit model sanity: pruning with the shortest period is not caught")
-    return {"states": st, "transitions": tr, "limit_sets": ["2/3", "1/2+3/7", "2/2+3/5+4/9", "1/4"], "liveness_checked": True}
+    rd = tlc.model_check("MC_RateLimit", MC_CFG % ('{"PruneByLargestCount"}', "L5", 5), "C09_dev2", workers=4, timeout=600)
+    if "C09_WindowInv" not in rd["violated"]:
+        raise ToolError("RateLimit model sanity: pruning by the period of the largest count is not caught")
+    return {"states": st, "transitions": tr, "limit_sets": ["2/3", "1/2+3/7", "2/2+3/5+4/9", "1/4", "3/2+2/5"], "liveness_checked": True}
 
 
 def patterns(rng, tier):
     pats = []
-    lim_sets = [[(3, 1)], [(1, 1)], [(5, 2)], [(2, 1), (5, 3)], [(4, 1), (6, 2), (9, 3)], [(10, 1)], [(20, 2)], [(2, 2), (3, 3)]]
+    # including sets in which the larger count does NOT belong to the longer period
+    lim_sets = [[(3, 1)], [(1, 1)], [(5, 2)], [(2, 1), (5, 3)], [(4, 1), (6, 2), (9, 3)], [(10, 1)], [(20, 2)], [(2, 2), (3, 3)],
+                [(5, 1), (2, 3)], [(6, 1), (4, 2), (3, 3)], [(3, 2), (2, 3)]]
     if tier == "thorough":
-        lim_sets += [[(1, 10)], [(3, 5), (7, 10)], [(20, 10)], [(5, 4), (8, 7), (12, 10)], [(15, 3)], [(2, 6)]]
+        lim_sets += [[(1, 10)], [(3, 5), (7, 10)], [(20, 10)], [(5, 4), (8, 7), (12, 10)], [(15, 3)], [(2, 6)], [(10, 2), (3, 10)], [(8, 3), (5, 6), (2, 9)]]
     for ls in lim_sets:
         nmax = max(n for n, _ in ls)
         pmax = max(p for _, p in ls)
@@ -93,7 +98,7 @@ def run(ctx):
             owner.append(i)
     # daemon level: every request of an endpoint passes its limiter; the limiter is shared by the certificates of the endpoint
     specs = []
-    for n_certs, lim in ((1, [(4, 1)]), (3, [(5, 1)]), (2, [(3, 1), (8, 2)])):
+    for n_certs, lim in ((1, [(4, 1)]), (3, [(5, 1)]), (2, [(3, 1), (8, 2)]), (2, [(6, 1), (3, 2)])):
         rls = [{"name": "rl%d" % k, "number": n, "period": "%ds" % p} for k, (n, p) in enumerate(lim)]
         certs = [simple_cert("rl%d" % j) for j in range(n_certs)]
         script = [{"kind": "newOrder", "nth": 1, "fault": "acme:badNonce:400", "repeat": 3}] if n_certs == 1 else []
